@@ -81,14 +81,29 @@ func (m FileMatcher) Match(file *ast.File, d data.Data) (data.Data, bool) {
 
 	// A path that the file imports under several names gives an import
 	// named by a metavariable several names to stand for. Which of them
-	// the code of the patch means shows when the code is matched: take
-	// the first with which it matches anything.
-	for _, withImports := range m.Imports.matchAll(file, d) {
-		if matched, ok := m.matchNodes(file, withImports); ok {
-			return matched, true
+	// the code of the patch means shows when the code is matched: the
+	// metavariable is left open, the first match of the code decides, and
+	// the code is then matched with that name.
+	imports, ok := m.Imports.choices(file)
+	if !ok {
+		return d, false
+	}
+	var first data.Data
+	if imports.open() {
+		tried, ok := m.matchNodes(file, imports.constrain(d))
+		if !ok {
+			return d, false
+		}
+		var fm fileMatchData
+		if data.Lookup(tried, fileMatchKey, &fm) && len(fm.Matches) > 0 {
+			first = fm.Matches[0].data
 		}
 	}
-	return d, false
+	withImports, ok := imports.decide(first, d)
+	if !ok {
+		return d, false
+	}
+	return m.matchNodes(file, withImports)
 }
 
 // matchNodes matches the code of the patch against the file, given the data
